@@ -34,6 +34,18 @@ func (ex *Exec) obligation(fr *Frame, st *State, kind, clause, goal string, pani
 func (ex *Exec) obligationFull(fr *Frame, st *State, kind, clause, goal string, panicSite bool, ordinal string, ground bool) {
 	vc := ex.vc
 	if goal == "true" {
+		// decided while the condition was generated (e.g. a comparison of two literals): no query, but the
+		// obligation exists (the pins must still find it)
+		if vc.collecting == 0 && !panicSite {
+			n := fmt.Sprintf("%s#%s", vc.prog.funcName(vc.fn), kind)
+			if ordinal != "" {
+				n += "#" + ordinal
+			}
+			if vc.trivial == nil {
+				vc.trivial = map[string]bool{}
+			}
+			vc.trivial[n] = true
+		}
 		return
 	}
 	if panicSite {
@@ -259,6 +271,14 @@ func (ex *Exec) bindParams(env *Env, fr *Frame) {
 			}
 			if fr.contract != nil && i < len(fr.contract.Alias) {
 				env.params[fr.contract.Alias[i]] = env.params[p.Name()]
+				if i == 0 && fr.contract.Alias[0] == "recv" && fr.contract.IfaceCheck {
+					// an implementer checked against an interface contract: recv is the interface value holding the receiver
+					pv := env.params[p.Name()]
+					if pv.T.Sort != SAny {
+						c := ex.vc.sorts.AnyCtor(p.Type())
+						env.params["recv"] = TVal{T: Term{app(c.name, pv.T.S), SAny}}
+					}
+				}
 			}
 		}
 	}
